@@ -558,6 +558,30 @@ unsafe fn fcntl_impl(fd: c_int, cmd: c_int, arg: c_long) -> c_int {
     }
 }
 
+/// A signal interrupts the call that is about to block?  (only inside library calls)
+fn eintr_fault(s: &mut Sim, t: u8, kind: u8) -> bool {
+    let (n, cnt, mask) = match s.k.faults.eintr {
+        Some(x) => x,
+        None => return false,
+    };
+    if mask & kind == 0 || !s.k.in_lib[t as usize] {
+        return false;
+    }
+    s.k.n_wouldblock += 1;
+    let k = s.k.n_wouldblock;
+    if k >= n && k < n + cnt {
+        s.k.fcount.hit("eintr");
+        s.k.probe(match kind {
+            1 => "eintr_poll",
+            2 => "eintr_pipe_io",
+            _ => "eintr_waitpid",
+        });
+        true
+    } else {
+        false
+    }
+}
+
 fn short_fault(s: &mut Sim, pm: u32, avail: usize, name: &'static str) -> Option<usize> {
     if pm == 0 || avail < 2 {
         return None;
@@ -613,6 +637,9 @@ pub unsafe extern "C" fn read(fd: c_int, buf: *mut c_void, n: size_t) -> ssize_t
                         return fin(t, Call::Read, [fd as i64, n as i64, 0], Err(e)) as ssize_t;
                     }
                     Err(Blk::Block) => {
+                        if eintr_fault(s, t, 2) {
+                            return fin(t, Call::Read, [fd as i64, n as i64, 0], Err(libc::EINTR)) as ssize_t;
+                        }
                         sched_block(t, Wait::Readable(d.unwrap()), None);
                     }
                 }
@@ -662,6 +689,10 @@ pub unsafe extern "C" fn write(fd: c_int, buf: *const c_void, n: size_t) -> ssiz
                             if let Some(d) = d {
                                 if matches!(s.k.descs[d].kind, DescKind::PipeW(_)) {
                                     s.k.probe("parent_big_write_blocked");
+                                    if eintr_fault(s, t, 2) {
+                                        // interrupted after a partial transfer: the count so far
+                                        return fin(t, Call::Write, [fd as i64, n as i64, 0], Ok(total as i64)) as ssize_t;
+                                    }
                                     sched_block(t, Wait::Writable(d, n - total), None);
                                     continue;
                                 }
@@ -683,6 +714,10 @@ pub unsafe extern "C" fn write(fd: c_int, buf: *const c_void, n: size_t) -> ssiz
                     }
                     Err(Blk::Block) => {
                         s.k.probe("parent_write_blocked");
+                        if eintr_fault(s, t, 2) {
+                            let r = if total > 0 { Ok(total as i64) } else { Err(libc::EINTR) };
+                            return fin(t, Call::Write, [fd as i64, n as i64, 0], r) as ssize_t;
+                        }
                         sched_block(t, Wait::Writable(d.unwrap(), (n - total).min(PIPE_BUF + 1)), None);
                     }
                 }
@@ -771,6 +806,9 @@ pub unsafe extern "C" fn poll(fds: *mut libc::pollfd, nfds: c_ulong, timeout: c_
                         s.k.probe("poll_multi_ready");
                     }
                     return fin(t, Call::Poll, [timeout as i64, mask_summary, blocked as i64], Ok(cnt)) as c_int;
+                }
+                if eintr_fault(s, t, 1) {
+                    return fin(t, Call::Poll, [timeout as i64, 0, blocked as i64], Err(libc::EINTR)) as c_int;
                 }
                 blocked = true;
                 let w: Vec<(i32, i16)> = v.iter().map(|p| (p.fd, p.events)).collect();
@@ -965,6 +1003,10 @@ unsafe fn wait_impl(t: u8, pid: pid_t, status: *mut c_int, options: c_int) -> pi
                 return fin(t, Call::Waitpid, [pid as i64, options as i64, blocked as i64], Err(e)) as pid_t;
             }
             Err(Blk::Block) => {
+                if eintr_fault(s, t, 4) {
+                    rec(s, -libc::EINTR, 0);
+                    return fin(t, Call::Waitpid, [pid as i64, options as i64, blocked as i64], Err(libc::EINTR)) as pid_t;
+                }
                 blocked = true;
                 sched_block(t, Wait::Child(pid), None);
             }
